@@ -114,6 +114,16 @@ Theorem C16_lu_solve_correct : forall (A b : list (list R)) dim,
 Proof. exact lu_solve_correct. Qed.
 Print Assumptions C16_lu_solve_correct.
 
+(* [G] the same statement about the EXECUTABLE rational instance (what the correspondence check runs), by parametricity transfer *)
+Theorem C16_lu_solve_correct_Q : forall (A b : list (list Q)) dim,
+  let n := length A in (0 < n)%nat -> is_square A = true -> rectQ n dim b ->
+  (forall i, (i < n)%nat -> ~ (get2 Qops (snd (doolittle Qops A)) i i == 0)%Q) ->
+  exists X, lu_solve Qops A b = Ok X /\
+    forall i c, (i < n)%nat -> (c < dim)%nat ->
+      (sumr Qops 0 n (fun k => omul Qops (get2 Qops A i k) (get2 Qops X k c)) == get2 Qops b i c)%Q.
+Proof. exact lu_solve_correct_Q. Qed.
+Print Assumptions C16_lu_solve_correct_Q.
+
 (* NOT proved (tied by the correspondence and the oracle only): strictly diagonally dominant matrices and
    spline collocation matrices have non-zero Doolittle pivots. *)
 Definition C16_sdd_pivots_nonzero_full : Prop := forall A : list (list R), is_square A = true ->
